@@ -759,6 +759,8 @@ func checkCutoff(p *an.Prog, r *an.Run) {
 
 func runC02(p *an.Prog, r *an.Run, tier string) {
 	checkSurfaceClosed(p, r)
+	// whose balance a credit lands on is decided by the key the drivers spell the wallet with (shared with C01/C12/C13)
+	checkKeyOperandTypes(p, r)
 	onUpdate := p.Method("pool/balance", "payPerInterval", "OnUpdate")
 	ic := p.Method("pool/balance", "payPerInterval", "intervalCredit")
 	upd := p.Method("pool", "VipnodePool", "Update")
